@@ -208,6 +208,18 @@ def run(ctx):
         ok = bool(terms) and not foreign
         ctx.ob("R2", "get_non_empty_message returns the rendered message or the rule id", ok,
                "returns get_message(..) as it is (or the rule id when the message is empty)" if ok else "the returned text also comes from %s" % sorted(set(foreign)), where=f.loc())
+    # a renderer that loops over the matches of a rule renders the message of EACH match (variables differ per match): no call of
+    # get_message outside the loop whose result is reused
+    for f in prog.find_fns(r"print_rule$"):
+        if f.crate != "ast_grep" or not any(c.name == "get_message" for c in f.calls):
+            continue
+        loops = f.loop_blocks()
+        if not loops:
+            continue
+        out = [c for c in f.calls if c.name == "get_message" and c.bb in f.live_blocks and c.bb not in loops]
+        ctx.ob("R2", "%s renders the message per match" % f.id, not out,
+               "every get_message call is inside the loop over the matches" if not out else
+               "get_message is called once outside the loop over the matches (%s) and its result reused: later matches are listed with the first match's variables" % f.loc(out[0].line), where=f.loc())
     if gm:
         renderers = [r"^ast_grep::print::json_print::RuleMatchJSON::<.*>::new$", r"^ast_grep::print::cloud_print::print_rule$", r"^<ast_grep::print::colored_print::ColoredProcessor as .*>::print_rule$",
                      r"^ast_grep_lsp::utils::get_non_empty_message$"]
